@@ -29,7 +29,7 @@ import sys
 from collections.abc import Hashable
 from typing import TypeVar
 
-from happysimulator.sketching.base import CardinalitySketch
+from happysimulator.sketching.base import CardinalitySketch, stable_item_repr
 
 T = TypeVar("T", bound=Hashable)
 
@@ -131,7 +131,7 @@ class HyperLogLog[T: Hashable](CardinalitySketch):
         # Include seed for reproducibility
         h.update(struct.pack(">Q", self._seed))
         # Hash the item (convert to bytes via repr for general hashables)
-        h.update(repr(item).encode("utf-8"))
+        h.update(stable_item_repr(item).encode("utf-8"))
         return struct.unpack(">Q", h.digest()[:8])[0]
 
     def add(self, item: T, count: int = 1) -> None:
